@@ -179,10 +179,14 @@ def op_opt_abort(op: dict, log: EventLog, viol: list, stats: Counter) -> None:
         log.add(op="opt_abort", pid=pid, k=k, scope=scope, j=j, skipped="pass_has_no_function_runner")
         return
     io._OPTIMIZER_PASSES = new
-    if strict:
-        os.environ[STRICT_ENV] = "1"
-    else:
+    # the switch is an environment variable read at failure time: the history of values it had in
+    # this process (set / unset / "0" / "false" / "true") is part of the crash point
+    envv = op.get("env", "1" if strict else None)
+    if envv is None:
         os.environ.pop(STRICT_ENV, None)
+    else:
+        os.environ[STRICT_ENV] = str(envv)
+    stats[f"strict_env_value:{envv!r}"] += 1
     raised: BaseException | None = None
     proto = None
     try:
@@ -431,15 +435,20 @@ def expand_enum(op: dict) -> list[dict]:
         return []
     subs: list[dict] = []
     if op.get("opt", True):
+        dvals = [None, "0", None, "false", None, "0"]
+        svals = ["1", "true", "1", "TRUE"]
         for k in range(c.n_pass):
-            subs.append({"op": "opt_abort", "pid": pid, "k": k, "scope": "top", "strict": False})
+            subs.append({"op": "opt_abort", "pid": pid, "k": k, "scope": "top", "strict": False, "env": dvals[k % len(dvals)]})
         strict_ks = list(range(c.n_pass))
         if not op.get("all_modes", False):
             # quick tier: the strict verdict is only raise-vs-return; first, last and four seeded pass indices
             rs = rng("c16-strict", op.get("seed", 0), pid)
             strict_ks = sorted({0, c.n_pass - 1, *rs.sample(range(c.n_pass), min(4, c.n_pass))})
-        for k in strict_ks:
-            subs.append({"op": "opt_abort", "pid": pid, "k": k, "scope": "top", "strict": True})
+        for q_, k in enumerate(strict_ks):
+            subs.append({"op": "opt_abort", "pid": pid, "k": k, "scope": "top", "strict": True, "env": svals[q_ % len(svals)]})
+            if q_ % 2 == 1:
+                # and back: a default-policy abort right after a strict one in the same process
+                subs.append({"op": "opt_abort", "pid": pid, "k": k, "scope": "top", "strict": False, "env": dvals[(q_ // 2) % len(dvals)]})
         fn_cap = int(op.get("fn_cap", 4))
         for j in range(min(c.n_fn, fn_cap)):
             for k in range(c.n_pass):
